@@ -4,7 +4,7 @@
    (mirrors cifdoc.hpp / to_cif.hpp / the value-level rules of cif.hpp after the three repairs);
    Cif/Legacy.v keeps the snapshot's behaviour for the *_refuted_before_fix statements. *)
 From GV Require Import Cif.Quote Cif.Write Cif.Buf Cif.Lex Cif.Legacy Cif.QuoteProofs Cif.BufProofs
-  Cif.LexProofs Cif.LayoutProofs Cif.Sequence Cif.Tokens Cif.DocTokens.
+  Cif.LexProofs Cif.LayoutProofs Cif.Sequence Cif.Tokens Cif.DocTokens Cif.DocParse.
 Local Open Scope Z_scope.
 
 (* ---- quote() / as_string(): the only places where value delimiters are chosen or removed *)
@@ -143,4 +143,18 @@ Example C01_document_example :
         TValue [59; 116; 10; 59]; TValue [59; 122]; TValue [50]; TValue [39; 97; 32; 98; 39];
         TSave [102]; TTag [95; 99]; TValue [51]; TSave []].
 Proof. vm_compute. reflexivity. Qed.
+
+(* ---- THE DOCUMENT ROUND TRIP, bytes -> tokens -> document. parse_doc is the grammar of cif.hpp over the tokens
+   (datablock = heading star<sor<dataitem, loop, frame>>, dataitem = tag value, loop = loop_ plus<tag> plus<value>,
+   frame = save_name star<sor<dataitem, loop>> save_). For every document the writer accepts (wf_doc: lexical
+   conditions; gr_doc: a loop with values has a tag, frames are named and not nested) and every option value, what
+   is written parses back to the document itself, minus what the writer does not write (comments, erased items,
+   loops without values) and with one-row loops as pairs when prefer_pairs says so. *)
+Theorem C01_document_roundtrip : forall o d, wf_doc d -> gr_doc d ->
+  match lex_all true (write_cif o d) with
+  | Some toks => parse_doc toks = Some (map (norm_block o) d)
+  | None => False
+  end.
+Proof. exact write_cif_parses. Qed.
+Print Assumptions C01_document_roundtrip.
 
